@@ -328,16 +328,23 @@ def addThenRewrite (cfg : Cfg) (fs : FS) (batch : List (Bytes × Cov)) : Res (Li
 /-- a file's `linesTotal` -/
 def linesTotal (c : Cov) : Nat := c.lines.length
 
+/-- the path under which a tree-shaped writer files a record (`output_covdir`, output.rs 190-195:
+`if rel_path.is_relative() { rel_path } else { abs_path }`): a reported path that is absolute –
+a key that `rewrite_paths` could not make relative – is replaced by the canonical path, so two
+records with different reported absolute paths but the same physical file (reached through links,
+no source dir) land on ONE node of the tree. -/
+def Rec.treePath (r : Rec) : Bytes := if r.rel.head? = some 47 then r.abs else r.rel
+
 /-- what `CDDirStats::set_stats` adds up for the directory selected by `inDir`: one summand per
 *record* pushed below it -/
 def dirTotal (inDir : Bytes → Bool) (rep : List Rec) : Nat :=
-  ((rep.filter fun r => inDir r.rel).map fun r => linesTotal r.cov).sum
+  ((rep.filter fun r => inDir r.treePath).map fun r => linesTotal r.cov).sum
 
 /-- the records a tree-shaped writer shows: children are keyed by name, a later record with the
 same path replaces the earlier one -/
 def shown : List Rec → List Rec
   | [] => []
-  | r :: rest => if rest.any (fun r' => r'.rel = r.rel) then shown rest else r :: shown rest
+  | r :: rest => if rest.any (fun r' => r'.treePath = r.treePath) then shown rest else r :: shown rest
 
 /-- the sum over the files listed below the directory, each once -/
 def listedTotal (inDir : Bytes → Bool) (rep : List Rec) : Nat := dirTotal inDir (shown rep)
